@@ -617,6 +617,11 @@ func c07Run(t kit.Fataler, c *c07Case, record bool) {
 				return
 			}
 		} else {
+			if err != nil && c.BadKind == "overlong-line" {
+				// failing as a whole on a line the reader cannot deliver is fine
+				_ = os.RemoveAll(dir)
+				continue
+			}
 			if err != nil {
 				_ = os.RemoveAll(dir)
 				fail(s, mode+"-compile-error", "every line is accepted by the line codec but the compilation failed: %v", err)
@@ -834,6 +839,15 @@ var c07BadLines = []struct{ kind, line string }{
 	{"bad-cidr", "%l1,2001:db8::/129"},
 	{"bad-cidr", "%l1,1.2.3.4/x,m2"},
 	{"unknown-type-char", "ab.example.com,1.2.3.4"},
+	// lines of one character are not data lines (the line rule skips everything
+	// shorter than two bytes), whatever the character
+	{"one-char-line", "Z"},
+	{"one-char-line", "."},
+	{"one-char-line", "x"},
+	// a line beyond the scanner's 64 KiB token limit: the codec would accept it, the
+	// reader cannot deliver it - the compilation may fail as a whole, but it must not
+	// succeed with data missing
+	{"overlong-line", "OVERLONG"},
 	// accepted by the codec of the pinned tree (then the case is an ordinary
 	// accepted file; whether they should be accepted is C09's subject)
 	{"bad-address", "+a.example.com,not-an-ip"},
@@ -940,6 +954,9 @@ func c07OneIn(t *rapid.T, n int, tag string) bool {
 func c07GenBad(t *rapid.T, c *c07Case) {
 	b := rapid.SampledFrom(c07BadLines).Draw(t, "bad")
 	c.Bad, c.BadKind = b.line, b.kind
+	if b.line == "OVERLONG" {
+		c.Bad = "'long.example.com," + strings.Repeat("x", 70000)
+	}
 	n := bytes.Count([]byte(c.Text), []byte("\n"))
 	if c.Kind == "bulk" {
 		n = c.Bulk.Lines + len(c.Bulk.Subnets)
